@@ -5,6 +5,7 @@
   Also: the writer halves of C09 (error latch) and C12 (init / reset give a fresh writer).
 -/
 import Binson.Lemmas.WriterLemmas
+import Binson.Lemmas.WriterXLemmas
 import Binson.Lemmas.OracleSpec
 namespace Binson
 
@@ -76,5 +77,13 @@ example :
 theorem c04_oracle_is_spec (cap : Nat) (ops : List WOp) :
     fitted cap 0 (ops.flatMap specPieces) = fittedPieces cap 0 (allPieces ops) :=
   oracle_image_eq cap ops
+
+
+/-- a raw write with the absurd length SIZE_MAX is refused by the capacity test of `_write` (the sum wraps around
+    to a value above the capacity or below the counter): `WOpX.hugeRaw` models exactly that outcome -/
+theorem c04_huge_length_refused (w : Writer) (hu : w.used < two64) (hc : w.cap < sizeMaxW) :
+    let c := (sizeMaxW + w.used) % two64
+    c > w.cap ∨ c < w.used :=
+  hugeRaw_refused w hu hc
 
 end Binson
